@@ -86,6 +86,14 @@ PROPS = {
                    ' with the module update lock): not within reach of sequential contracts; delivery to exactly the listeners: bounded'],
         bounded=[CB('event-contracts', 'contracts/events.py', 'gens_events')],
     ),
+    'C09': dict(
+        contract_files=['contracts/isolation.py'],
+        level='proof',
+        trusted_base=COMMON_TRUSTED + ['property machinery abstracted to plain fields; DataType.copy returns a fresh object'],
+        uncovered=['merge of accessibles along the MRO (HasAccessibles.__init_subclass__), per-instance copies in Module.__init__,'
+                   ' Property copies for bare-value overrides, run-time enum growth (mixins): bounded / not covered'],
+        bounded=[CB('isolation-contracts', 'contracts/isolation.py', 'gens_isolation')],
+    ),
     'C07': dict(
         contract_files=['contracts/protocol.py'],
         level='proof',
